@@ -215,7 +215,10 @@ def _run(ctx):
             m = meta[qid]
             key = "threshold-changes-results"
             causes = []
-            if (not m["grafana_eq_std"]) and m["mixed_fold_rune"] and not m["case_sensitive"]:
+            # mixed_fold_rune is computed from the COMPILED regexp (a literal carrying syntax.FoldCase with a fold partner of
+            # another UTF-8 length), so it already covers query-level case-insensitivity AND inline (?i) groups of a
+            # case-sensitive query (e.g. "(?i)k", which stays a regexp since /repo efa35e5).
+            if (not m["grafana_eq_std"]) and m["mixed_fold_rune"]:
                 causes.append("grafana-fold-prefix:" + m["mixed_fold_rune"])
             if (not m["re2_eq_std"]) and m["re2_inside_rune"] and "\\B" in m["compiled"]:
                 causes.append("re2-noword-boundary-inside-utf8")
